@@ -29,6 +29,7 @@ type framingModel struct {
 	tePresent  bool
 	teBad      bool
 	teShape    string
+	teCase     string // "-odd-case" when the final coding is chunked in another spelling
 }
 
 // codingsOf flattens Transfer-Encoding lines into the ordered list of codings.
@@ -46,10 +47,14 @@ func modelFraming(c FramingCase) framingModel {
 	m.tePresent = len(te) > 0
 	if m.tePresent {
 		all := flatten(te)
-		m.teBad = len(all) == 0 || all[len(all)-1] != "chunked"
+		// transfer-coding names are case-insensitive (RFC 7230 section 4)
+		m.teBad = len(all) == 0 || !strings.EqualFold(all[len(all)-1], "chunked")
 		m.teShape = "single-line"
 		if len(te) > 1 {
 			m.teShape = "multi-line"
+		}
+		if !m.teBad && all[len(all)-1] != "chunked" {
+			m.teCase = "-odd-case"
 		}
 	}
 	return m
@@ -83,7 +88,7 @@ func runFraming(c FramingCase) kit.Verdict {
 	if err != nil {
 		shape := "no-transfer-encoding"
 		if m.tePresent {
-			shape = "te-" + m.teShape + "-ending-in-chunked"
+			shape = "te-" + m.teShape + "-ending-in-chunked" + m.teCase
 		}
 		v.Addf("C14/framing-modifier/"+shape+"/false-error", "Transfer-Encoding lines %q (final coding chunked), Content-Length lines %q (no conflict): the framing modifier returned %v", m.in["Transfer-Encoding"], m.in["Content-Length"], err)
 		return v
@@ -93,7 +98,7 @@ func runFraming(c FramingCase) kit.Verdict {
 	switch {
 	case m.tePresent:
 		if len(cl) > 0 {
-			v.Addf("C14/framing-modifier/te-"+m.teShape+"-ending-in-chunked/content-length-kept", "accepted request carries both Transfer-Encoding %q and Content-Length %q", req.Header["Transfer-Encoding"], cl)
+			v.Addf("C14/framing-modifier/te-"+m.teShape+"-ending-in-chunked"+m.teCase+"/content-length-kept", "accepted request carries both Transfer-Encoding %q and Content-Length %q", req.Header["Transfer-Encoding"], cl)
 		}
 		if !equalStrings(req.Header["Transfer-Encoding"], m.in["Transfer-Encoding"]) {
 			v.Addf("C14/framing-modifier/te-"+m.teShape+"-ending-in-chunked/transfer-encoding-changed", "Transfer-Encoding %q became %q", m.in["Transfer-Encoding"], req.Header["Transfer-Encoding"])
@@ -112,7 +117,7 @@ func runFraming(c FramingCase) kit.Verdict {
 
 func endsChunked(line string) bool {
 	f := flatten([]string{line})
-	return len(f) > 0 && f[len(f)-1] == "chunked"
+	return len(f) > 0 && strings.EqualFold(f[len(f)-1], "chunked")
 }
 
 func framingClasses(c FramingCase) []string {
@@ -127,9 +132,9 @@ func framingClasses(c FramingCase) []string {
 	all := flatten(te)
 	n := 0
 	for i, x := range all {
-		if x == "chunked" {
+		if strings.EqualFold(x, "chunked") {
 			n++
-			add(i == 0 && len(all) > 1 && all[len(all)-1] != "chunked", "te-chunked-first-not-last")
+			add(i == 0 && len(all) > 1 && !strings.EqualFold(all[len(all)-1], "chunked"), "te-chunked-first-not-last")
 			add(i > 0 && i < len(all)-1, "te-chunked-middle")
 		}
 	}
@@ -139,6 +144,7 @@ func framingClasses(c FramingCase) []string {
 	add(m.tePresent && n == 0, "te-without-chunked")
 	add(m.tePresent && !m.teBad, "te-ending-in-chunked")
 	add(m.teBad, "te-not-ending-in-chunked")
+	add(m.teCase != "", "te-ending-in-chunked-odd-case")
 	add(len(te) > 1 && endsChunked(te[0]) != endsChunked(te[len(te)-1]), "te-first-and-last-line-disagree")
 	add(len(m.in["Content-Length"]) > 0, "cl-present")
 	add(len(m.in["Content-Length"]) > 1, "cl-multi-line")
@@ -187,7 +193,7 @@ var propFraming = &kit.Prop[FramingCase]{
 	Gates: map[string]float64{
 		"nontrivial": 0.5, "te-multi-line": 0.3, "te-first-and-last-line-disagree": 0.1, "te-chunked-first-not-last": 0.05,
 		"te-chunked-middle": 0.05, "te-chunked-repeated": 0.1, "te-ending-in-chunked": 0.25, "te-not-ending-in-chunked": 0.1,
-		"cl-conflict": 0.1, "both-framings": 0.3,
+		"cl-conflict": 0.1, "both-framings": 0.3, "te-ending-in-chunked-odd-case": 0.08,
 	},
 }
 
